@@ -249,6 +249,42 @@ pub fn run(cfg: &Cfg, out: &mut Out) {
             one_iter(out, &s, &h);
         }
     }
+    // stress: long strings (around the 32/64-byte block sizes), pure ASCII and with one multi-byte
+    // char at the block edges, under scripted histories that exhaust the iterator from one end
+    // after taking 1 / half / all-but-one / all items from the other, and one step more
+    {
+        let lens: &[usize] = if cfg.thorough { &[16, 31, 32, 33, 34, 40, 63, 64, 65, 66, 96, 100, 130] } else { &[32, 33, 34, 40, 64, 66] };
+        for &len in lens {
+            let mut strs: Vec<String> = vec!["a".repeat(len)];
+            for c in ['é', '🧠'] {
+                let cl = c.len_utf8();
+                let mut ps: Vec<usize> = vec![0, 1, 2, 31, 32, 33, len / 2, len - cl];
+                ps.extend(len.saturating_sub(35)..=len.saturating_sub(29));
+                ps.retain(|p| p + cl <= len);
+                ps.sort_unstable();
+                ps.dedup();
+                for p in ps {
+                    strs.push(format!("{}{}{}", "a".repeat(p), c, "b".repeat(len - p - cl)));
+                }
+            }
+            for s in &strs {
+                let k = s.chars().count();
+                let mut hs: Vec<Vec<u8>> = vec![vec![b'F'; k + 2], vec![b'B'; k + 2]];
+                hs.push((0..k + 2).map(|i| if i % 2 == 0 { b'F' } else { b'B' }).collect());
+                for j in [1usize, k / 2, k - 1, k] {
+                    let mut h = vec![b'B'; j];
+                    h.extend(vec![b'F'; k - j + 2]);
+                    hs.push(h);
+                    let mut h = vec![b'F'; j];
+                    h.extend(vec![b'B'; k - j + 2]);
+                    hs.push(h);
+                }
+                for h in &hs {
+                    one_iter(out, s, h);
+                }
+            }
+        }
+    }
     // edge characters of every Table 3-7 row, in pairs
     let edge: Vec<char> = [0u32, 0x7F, 0x80, 0x7FF, 0x800, 0xFFF, 0x1000, 0xCFFF, 0xD000, 0xD7FF, 0xE000, 0xFFFF, 0x10000, 0x3FFFF,
                            0x40000, 0xFFFFF, 0x100000, 0x10FFFF].iter().map(|&n| char::from_u32(n).unwrap()).collect();
